@@ -74,6 +74,16 @@ func Run(r *core.Run) {
 		}
 	}
 	kcs = append(kcs, keyCase{"vendored(n=5,t=2)", fix.EdFixtures(), 2})
+	// group keys of particular shapes (a coordinate with a leading zero byte: one key in 128), found by running
+	// the real keygen under successive seeds
+	for _, shape := range []string{"y-short", "x-short"} {
+		if ks := scen.EdKeyShaped(shape, 2, 1, r.Seed, 2000); ks != nil {
+			kcs = append(kcs, keyCase{"generated(n=2,t=1,pub=" + shape + ")", ks, 1})
+			r.Count("shaped_keys", 1)
+		} else {
+			r.Cap("no key of shape " + shape + " within 2000 keygens")
+		}
+	}
 	msgs := messages()
 
 	// (1) the full product (key x signer subset x message) on the FIFO schedule
